@@ -136,6 +136,9 @@ func (P *Prog) VerifyFunc(f *ssa.Function, c *Contract) *Trans {
 		post.results = append(post.results, specVal{r, rs.At(i).Type()})
 		t.evalTerms = append(t.evalTerms, r)
 	}
+	for _, rv := range c.Extra["reveal-post"] {
+		t.assume(retCond, revealInstance(post, rv))
+	}
 	// ghost assignments at exit
 	for _, eu := range c.ExitUpdates {
 		comp := eu[0].Atom
@@ -264,6 +267,7 @@ var wellKnownSym = []string{
 	"TY_slice", "TY_map", "TY_time", "TY_bytes",
 	"TY_ltime", "TY_field", "TY_unary", "TY_binary", "TY_not", "TY_matchfunc", "TY_document",
 	"TY_errorString", "TY_strslice", "TY_docslice",
+	"TY_infoslice", "TY_rangemap", "TY_vflatten", "TY_vselect", "TY_vrange", "TY_vnorm",
 }
 
 func (t *Trans) Query(o *Oblig) string {
